@@ -187,6 +187,9 @@ fn plan_c01(thorough: bool) -> Plan {
     cases.extend(enum_commit_histories(2, 6, if thorough { 3 } else { 1 }, &a_br, &mk_case("branch", vec!["seed:0,1,299,300,598,599"], &cfg3, "values", false)));
     add_quiet(&mut cases, if thorough { 2 } else { 4 });
     add_io_reverse(&mut cases, if thorough { 5 } else { 20 });
+    if thorough {
+        add_pool_poison(&mut cases, 6, 0xA5);
+    }
     sort_by_bound(&mut cases);
     let mut p = Plan::new(
         cases,
@@ -361,6 +364,9 @@ fn plan_c16(thorough: bool) -> Plan {
     }
     add_quiet(&mut cases, if thorough { 1 } else { 3 });
     add_io_reverse(&mut cases, if thorough { 5 } else { 15 });
+    if thorough {
+        add_pool_poison(&mut cases, 6, 0xA5);
+    }
     sort_by_bound(&mut cases);
     let mut p = Plan::new(
         cases,
@@ -707,6 +713,22 @@ pub fn crash_plan(prop: &str, tier: &str) -> Plan {
         }
     }
     let _ = n_root_layer;
+    // poisoned page-pool buffers (verif knob: "the contents of the page are undefined" — whatever
+    // lands in the unused parts of WAL, meta, leaf, branch, free-list and hash-table pages must
+    // not matter to recovery): the explicit histories once more (thorough: every general history)
+    let n_before_poison = hs.len();
+    if prop == "C03" || (prop == "C04" && thorough) {
+        let poisoned: Vec<(Value, usize, u64)> = hs[..n_general]
+            .iter()
+            .filter(|(_, _, b)| thorough || *b >= 3)
+            .map(|(h, t, b)| {
+                let mut h = h.clone();
+                h["cfg"]["pool_poison"] = json!(0xA5);
+                (h, *t, *b)
+            })
+            .collect();
+        hs.extend(poisoned);
+    }
     let mut cases: Vec<Value> = hs
         .into_iter()
         .enumerate()
@@ -724,7 +746,7 @@ pub fn crash_plan(prop: &str, tier: &str) -> Plan {
             let general = i < n_general;
             [(false, 15u8), (true, 15), (true, 1), (true, 2), (true, 4), (true, 8)]
                 .into_iter()
-                .filter(move |(lazy, pools)| !(*lazy && (root_layer || big) && !thorough) && (*pools == 15 || (thorough && general)))
+                .filter(move |(lazy, pools)| !(*lazy && (root_layer || big || i >= n_before_poison) && !thorough) && (*pools == 15 || (thorough && general)))
                 .map(move |(lazy, pools)| json!({"mode": mode, "hist": h, "target": t, "bound": b, "lazy": lazy, "lazy_pools": pools, "cap": if big { 2 } else if thorough { 8 } else { 5 }, "nested": !big && (thorough || !lazy) && pools == 15, "max_per_instant": if big { 4 } else if thorough { 96 } else { 40 }, "stride": if big && !thorough { 40 } else if big { 3 } else { 1 }}))
         })
         .collect();
@@ -760,7 +782,7 @@ pub fn crash_plan(prop: &str, tier: &str) -> Plan {
     }
     sort_by_bound(&mut cases);
     let rule = match prop {
-        "C03" => "crashx: for every history of the set H3 (all histories of ≤D commits with ≤B key actions {write 1 B, write 1333 B, delete} over 4 colliding keys from seeds {empty, leaf, 20-key cluster below a depth-2 merkle page}, plus explicit rollback / reopen / overlay-commit / log-pruning / overflow-value histories; rollback enabled, log length 2, 8 KiB rollback segments, 64-bucket hash table) the last operation is executed on the real store twice — background tasks of the sync pipeline running as they come, and each of them (spawn_task on the *-sync pools, Fsyncer work) held back until some thread waits for it (thorough tier, general histories: four more schedules, each holding back exactly one part of the pipeline — beatree tasks, bitbox tasks, rollback tasks, fsyncer threads — while the rest runs as it comes) — with every mutating file operation recorded (submission stamp, stamp at which the issuing code learnt of its completion); for EVERY instant of the trace and EVERY subset of the operations in flight at that instant (capped: beyond `cap` in-flight operations only none/all/each single/each single missing/each prefix) the directory image is materialised and reopened with the real Nomt::open; the reopened store must show exactly the old or exactly the new state (values, root, proofs, sync_seqn from the same side; new whenever the operation had returned), decode to that state (independent decoder) and accept a follow-up commit and rollback that behave as in the model; the recovery of every image is itself recorded and cut at every instant (nested once). REAL PROCESS DEATH (mode kill): for the explicit histories (thorough: all of H3, both task schedules) the traced operation is re-executed in a child process that aborts (SIGABRT, no unwinding) right before its k-th mutating or syncing file operation, for EVERY k of the reference trace; the directory the dead process leaves behind must (i) equal, byte for byte, the dead process's own pre-image plus every operation its own I/O log (handed over right before the abort) shows as performed plus some subset of the operations then in flight — the conformance check of the crash model used by the cut enumeration against a real kill (goal `real-crash-state=pre+performed+subset-of-in-flight`; a mismatch is printed as a NOTE and counted, it is a statement about the model, not about the property), (ii) open at once with the real Nomt::open (the kernel released the lock), (iii) show exactly the old or the new state (new if the call had returned), and (iv) pass the same inspection as a synthesised image, including every cut of its recovery. evaluations = traced operations; transitions = images opened + processes killed.",
+        "C03" => "crashx: for every history of the set H3 (all histories of ≤D commits with ≤B key actions {write 1 B, write 1333 B, delete} over 4 colliding keys from seeds {empty, leaf, 20-key cluster below a depth-2 merkle page}, plus explicit rollback / reopen / overlay-commit / log-pruning / overflow-value histories; rollback enabled, log length 2, 8 KiB rollback segments, 64-bucket hash table) the last operation is executed on the real store twice — background tasks of the sync pipeline running as they come, and each of them (spawn_task on the *-sync pools, Fsyncer work) held back until some thread waits for it; the explicit histories (thorough: all general histories) once more with the page pool handing out buffers full of 0xA5, so that the unused parts of every page written carry garbage (thorough tier, general histories: four more schedules, each holding back exactly one part of the pipeline — beatree tasks, bitbox tasks, rollback tasks, fsyncer threads — while the rest runs as it comes) — with every mutating file operation recorded (submission stamp, stamp at which the issuing code learnt of its completion); for EVERY instant of the trace and EVERY subset of the operations in flight at that instant (capped: beyond `cap` in-flight operations only none/all/each single/each single missing/each prefix) the directory image is materialised and reopened with the real Nomt::open; the reopened store must show exactly the old or exactly the new state (values, root, proofs, sync_seqn from the same side; new whenever the operation had returned), decode to that state (independent decoder) and accept a follow-up commit and rollback that behave as in the model; the recovery of every image is itself recorded and cut at every instant (nested once). REAL PROCESS DEATH (mode kill): for the explicit histories (thorough: all of H3, both task schedules) the traced operation is re-executed in a child process that aborts (SIGABRT, no unwinding) right before its k-th mutating or syncing file operation, for EVERY k of the reference trace; the directory the dead process leaves behind must (i) equal, byte for byte, the dead process's own pre-image plus every operation its own I/O log (handed over right before the abort) shows as performed plus some subset of the operations then in flight — the conformance check of the crash model used by the cut enumeration against a real kill (goal `real-crash-state=pre+performed+subset-of-in-flight`; a mismatch is printed as a NOTE and counted, it is a statement about the model, not about the property), (ii) open at once with the real Nomt::open (the kernel released the lock), (iii) show exactly the old or the new state (new if the call had returned), and (iv) pass the same inspection as a synthesised image, including every cut of its recovery. evaluations = traced operations; transitions = images opened + processes killed.",
         "C04" => "crashx: the history set and traces of C03 under POWER-LOSS semantics: an operation is durable at instant t iff a sync of its file (its directory for create/unlink) was submitted after the issuing code had received its completion and completed before t; for every instant, every combination (capped per instant, reported) of: per file, every prefix in issue order of the non-durable size-changing operations (set_len, append — the last kept append also cut at every page boundary), every subset (capped) of the non-durable in-place page writes, at most one write torn at the 2 KiB boundary either way; per directory every prefix of non-durable creates/unlinks. Each image is reopened with the real Nomt::open and audited as in C03 (exactly old or exactly new; new once the operation returned); nested once into recovery. ORDER MONITOR (the property's 'equivalently' clause, decided on the ordered trace itself with no cap and no image, for every traced operation of the thorough history set, the root-layer family and the WAL-geometry history under EVERY subset of {beatree-sync tasks, bitbox-sync tasks, rollback-sync tasks, fsyncer threads} held back until waited for while the rest runs as it comes (16 task schedules per traced operation in the thorough tier; quick tier: none and all for every history, each single part for the quick tier's own history set and the WAL-geometry history) — cases of bound 0, run first): R1 every mutating operation issued before the meta write is covered by a sync of its file (directory for create/unlink) that was submitted after the issuing code had received its completion and that completed before the meta write was issued; R2 no other file is modified, truncated or unlinked between the meta write and the completion of the meta fsync; R3 (also in recovery) the WAL is truncated only after every earlier hash-table write is covered by a completed fsync. transitions = images opened + operations checked by the monitor.",
         _ => "crashx monitor: for every traced operation of the history set H3, every mutating file operation submitted before the meta fsync completes is checked against the live regions of the pre-image as decoded by the independent decoder (leaves, overflow pages, branch nodes, free-list pages of both value files; the whole hash-table file; segments / byte ranges holding live rollback records; the meta page): no write into a live ln/bbn page (only free pages or pages at/after the bump), no ht write at all, no truncation below the bump or below the end of live rollback records, no unlink of a segment holding live records; the WAL is exempt (redo log). The history set is H3 plus operations with hundreds of page writes on a free list that spans two list pages (allocations crossing from the head list page into the next, the list running dry, pages released and allocated in one commit; the tree emptied, refilled from the free list by a sync that frees nothing, restarted and written again). transitions = operations checked.",
     };
